@@ -141,7 +141,7 @@ def gen_files(names):
     return True, out
 
 
-ALL_GENS = ["registry", "ruletable", "ir", "suggest", "stateinv", "maprange", "mutsites", "flagtable"]
+ALL_GENS = ["registry", "ruletable", "ir", "suggest", "prectable", "stateinv", "maprange", "mutsites", "flagtable"]
 
 
 def coq_make(timeout=1500):
